@@ -100,6 +100,7 @@ def classify(c, real, lean):
     R = not vm.startswith("compile-error")
     li, la, lrun = lean
     L = li.startswith("accept")
+    sole_tuple_arg = coregen.has_sole_tuple_argument(c["prog"]) if c.get("prog") is not None else False
     if lrun not in ("-", "fuel") and not lrun.startswith("ok"):
         return "L+", "violation", f"the Lean checker accepted a program whose reference run fails ({lrun}) — contradicts C03_check_run_output_width"
     if L and R and why is None and vm.startswith("ok"):
@@ -121,11 +122,11 @@ def classify(c, real, lean):
             return cell, "agree", ""
         if nested_output(li):
             return cell, "known:K3", why
-        if coregen.has_sole_tuple_argument(c["prog"]):
+        if sole_tuple_arg:
             return cell, "known:K4", why
         return cell, "violation", "a program the Lean checker accepts (well typed in the core type system) is accepted by the real checker and does not run safely: " + why
     if L and not R:
-        if coregen.has_sole_tuple_argument(c["prog"]):
+        if sole_tuple_arg:
             return cell, "outside-model", "argument-pack"
         return cell, "violation", "the Lean checker accepts, the real checker rejects: " + vm[:160]
     if not L and not R:
